@@ -828,7 +828,7 @@ func convertTo(t reflect.Type, v Val) (reflect.Value, error) {
 		case VUint:
 			u = v.U
 		case VFloat:
-			if v.F != math.Trunc(v.F) || v.F < 0 || v.F >= 1<<62 {
+			if v.F != math.Trunc(v.F) || v.F < 0 || v.F >= 18446744073709551616.0 { // 2^64
 				return out, ErrUnsupported
 			}
 			u = uint64(v.F)
@@ -1214,6 +1214,21 @@ func (ev *Evaluator) call(c *grl.Call) (Val, error) {
 			}
 		}
 		return Val{}, evalErr("fact method %s: bad call", c.Name)
+	}
+	// methods of facts.Sub, reached by value or through a pointer
+	if recv.K == VComp && recv.R.IsValid() && len(args) == 0 {
+		rv := recv.R
+		for rv.Kind() == reflect.Ptr && !rv.IsNil() {
+			rv = rv.Elem()
+		}
+		if rv.Kind() == reflect.Struct && rv.Type() == reflect.TypeOf(facts.Sub{}) {
+			switch c.Name {
+			case "Twice":
+				return IntV(2 * rv.FieldByName("V").Int()), nil
+			case "Avail":
+				return IntV(rv.FieldByName("V").Int() - 1), nil
+			}
+		}
 	}
 	switch recv.K {
 	case VString:
